@@ -185,6 +185,24 @@ type K21 struct{ S string }
 type K22 struct{ S string }
 type K23 struct{ S string }
 
+// Odd: a struct without fields (by value, by pointer, in a list of pointers) and field names that are not
+// plain lower-camel-case ASCII. (No []Empty: every slice of zero-size elements has the same data pointer,
+// i.e. is "the same slice in two places", which the strict domain excludes - C04.)
+type Empty struct{}
+type OddNames struct {
+	X_y   int32
+	Ärger string
+	URL   string
+	ID    int32
+}
+type Odd struct {
+	E     Empty
+	P     *Empty
+	LP    []*Empty
+	N     OddNames
+	After int32
+}
+
 // Wide has enough fields to make write counts and cut offsets interesting.
 type Wide struct {
 	A0, A1, A2, A3 int32
@@ -209,7 +227,7 @@ var kTypes = []reflect.Type{
 
 var bigTypes = []reflect.Type{
 	reflect.TypeOf(Scalars{}), reflect.TypeOf(Node{}), reflect.TypeOf(Emb{}), reflect.TypeOf(Named{}),
-	reflect.TypeOf(Lists{}), reflect.TypeOf(Maps{}), reflect.TypeOf(Wide{}), reflect.TypeOf(Tagged{}), reflect.TypeOf(MapsOdd{}), reflect.TypeOf(Bag{}),
+	reflect.TypeOf(Lists{}), reflect.TypeOf(Maps{}), reflect.TypeOf(Wide{}), reflect.TypeOf(Tagged{}), reflect.TypeOf(MapsOdd{}), reflect.TypeOf(Bag{}), reflect.TypeOf(Odd{}),
 }
 
 // ---- type map / name map ---------------------------------------------------------------------
@@ -233,6 +251,7 @@ func witness() interface{} {
 		Bg *Bag
 		Tg *Tagged
 		Mo *MapsOdd
+		Od *Odd
 		// struct types must be reachable through typed fields (an interface{} element hides them
 		// from the extraction)
 		K00 *K00
@@ -279,6 +298,7 @@ func witness() interface{} {
 		Mo: &MapsOdd{SI: map[string]int{"a": 1}, SF32: map[string]float32{"a": 1.5}, I8S: map[int8]string{1: "a"}, SU16: map[string]uint16{"a": 1}, N: 1},
 		Tg: &Tagged{L: Labels{"a": "b"}, I: IDs{1}, N: 1, P: &K00{1, "a"}},
 		Bg: &Bag{Items: []interface{}{int32(1)}, Other: []int32{1}, M: map[string]interface{}{"a": int32(1)}},
+		Od: &Odd{P: &Empty{}, LP: []*Empty{{}}, N: OddNames{1, "a", "u", 2}, After: 1},
 	}
 	fillWitness(reflect.ValueOf(w).Elem())
 	return w
@@ -720,6 +740,11 @@ func (g *Gen) fillValue(f reflect.Value, ft reflect.Type, depth int, elem bool) 
 			n = 2
 		}
 		if n == 0 {
+			if g.ch.Intn(2, "list.emptynonnil") == 1 {
+				// an empty slice that is not nil (every such slice has the same data pointer)
+				f.Set(reflect.MakeSlice(ft, 0, 0))
+				g.note("list.emptynonnil")
+			}
 			return
 		}
 		sl := reflect.MakeSlice(ft, n, n)
